@@ -218,7 +218,48 @@ pub fn generate(g: &mut Gen) {
             let plain = era == "shelley" && g.rng.chance(9, 10);
             let fee = match g.rng.below(10) { 0 => 0, 1 => g.rng.u64_edgy(), _ => g.rng.range(150_000, 900_000) };
             let (mut ins, mut mint, mut outs): (Vec<Val>, Option<Vec<(u8, Vec<(Vec<u8>, i128)>)>>, Vec<Val>);
-            match g.rng.below(20) {
+            match g.rng.below(24) {
+                // burns around what the spent inputs hold (exactly, one past, a multiple, far beyond), of assets held by one input
+                // or spread over several inputs / policies, optionally next to a fresh mint of another asset of the same policy;
+                // the outputs carry what a clamping / wrapping / sign-dropping implementation would compute, or the exact rest
+                20..=23 => {
+                    let names: [Vec<u8>; 3] = [vec![0x01], vec![0x01, 0x00], vec![0x7f, 0xff]];
+                    let nin = g.rng.range(1, 3) as usize;
+                    let npol = g.rng.range(1, 2) as usize;
+                    let nas = g.rng.range(1, 2) as usize;
+                    ins = (0..nin).map(|_| Val { multi: true, coin: g.rng.range(2_000_000, 9_000_000), groups: vec![] }).collect();
+                    let mut held: Assets = BTreeMap::new();
+                    for p in 0..npol { for a in 0..nas {
+                        // the asset sits in one input, or a part of it in every input
+                        let spread = nin > 1 && g.rng.chance(1, 2);
+                        for (i, v) in ins.iter_mut().enumerate() {
+                            if !spread && i != (p + a) % nin { continue; }
+                            let amt = g.rng.range(1, 40) as i128;
+                            let pol = [0x11u8, 0x22][p];
+                            match v.groups.iter_mut().find(|x| x.0 == pol) { Some(gr) => gr.1.push((names[a].clone(), amt)), None => v.groups.push((pol, vec![(names[a].clone(), amt)])) }
+                            *held.entry((vec![pol], names[a].clone())).or_insert(0) += amt;
+                        }
+                    } }
+                    let mut m: BTreeMap<u8, Vec<(Vec<u8>, i128)>> = BTreeMap::new();
+                    let mut rest: Assets = held.clone();
+                    let style = g.rng.below(4);   // what the outputs do with an over-burnt asset: 0 clamp to zero, 1 |difference|, 2 wrapped, 3 untouched
+                    for ((p, n), a) in &held {
+                        if !g.rng.chance(3, 4) { continue; }
+                        let burn = match g.rng.below(7) { 0 => *a, 1 | 2 => *a + 1, 3 => 2 * *a, 4 => *a + g.rng.range(2, 1000) as i128, 5 => g.rng.range(1, *a as u64) as i128, _ => *a + 5 };
+                        m.entry(p[0]).or_default().push((n.clone(), -burn));
+                        let exact = *a - burn;
+                        let shown = if exact >= 0 { exact } else { match style { 0 => 0, 1 => -exact, 2 => (1i128 << 64) + exact, _ => *a } };
+                        rest.insert((p.clone(), n.clone()), shown);
+                    }
+                    // a fresh mint of another asset of a policy that also burns
+                    if g.rng.chance(1, 2) { let fresh = g.rng.range(1, 50) as i128; m.entry(0x11).or_default().push((vec![0x4e, 0x45], fresh)); rest.insert((vec![0x11], vec![0x4e, 0x45]), fresh); }
+                    mint = if m.is_empty() { None } else { Some(m.into_iter().collect()) };
+                    let total: u64 = ins.iter().map(|v| v.coin).sum();
+                    let mut groups: BTreeMap<u8, Vec<(Vec<u8>, i128)>> = BTreeMap::new();
+                    for ((p, n), a) in rest { if a != 0 || (!conway && g.rng.chance(1, 4)) { groups.entry(p[0]).or_default().push((n, a)); } }
+                    let all = Val { multi: !groups.is_empty() || g.rng.chance(1, 2), coin: total.saturating_sub(fee), groups: groups.into_iter().collect() };
+                    outs = if g.rng.chance(1, 3) && all.coin > 2_000_000 { vec![Val { multi: false, coin: 1_000_000, groups: vec![] }, Val { coin: all.coin - 1_000_000, ..all }] } else { vec![all] };
+                }
                 // related scenario: moderate inputs, a mint that refers to them, outputs balancing exactly, then maybe one perturbation
                 0..=10 => {
                     ins = (0..g.rng.range(1, 3)).map(|_| small_val(g, !plain)).collect();
